@@ -3,6 +3,8 @@ package main
 // Intrinsics: sync monitors, channels, maps, goroutines, range iteration.
 
 import (
+	"sort"
+	"os"
 	"fmt"
 	"go/types"
 	"strings"
@@ -18,6 +20,9 @@ func (x *Exec) atCallAsserts(st *State, fr *Frame, callee string, pnames []strin
 	}
 	fr.callOrd[callee]++
 	ord := fr.callOrd[callee]
+	if so := x.E.siteOrdinal(fr.fn, x.curSite, callee); so > 0 {
+		ord = so
+	}
 	if fr.fc == nil || x.dry {
 		return
 	}
@@ -60,6 +65,9 @@ func (x *Exec) withGhostSets(fr *Frame, callee string, pnames []string, args []V
 		return k
 	}
 	ord := fr.callOrd[callee]
+	if so := x.E.siteOrdinal(fr.fn, x.curSite, callee); so > 0 {
+		ord = so
+	}
 	var sets []*AtCall
 	for ai := range fr.fc.Asserts {
 		a := &fr.fc.Asserts[ai]
@@ -67,6 +75,9 @@ func (x *Exec) withGhostSets(fr *Frame, callee string, pnames []string, args []V
 			sets = append(sets, a)
 			x.E.markAssertUsed(fr.fc, ai)
 		}
+	}
+	if os.Getenv("GOVC_DEBUG_SETS") != "" {
+		fmt.Fprintf(os.Stderr, "[sets] %s ord=%d sets=%d\n", callee, ord, len(sets))
 	}
 	if len(sets) == 0 {
 		return k
@@ -717,4 +728,69 @@ func (x *Exec) rangeGhost(st *State, suffix string) *Term {
 		return found
 	}
 	return nil
+}
+
+// siteOrdinal: the static ordinal of a call site: its rank, in source order, among
+// the call sites of the function whose static callee has the same name ("at call K
+// of F" names the K-th call of F as written).  0 when the site's callee is not
+// static (the dynamic per-path count is used then).
+func (E *Engine) siteOrdinal(fn *ssa.Function, site ssa.Instruction, callee string) int {
+	if site == nil || fn == nil {
+		return 0
+	}
+	m, ok := E.siteOrds[fn]
+	if !ok {
+		m = map[ssa.Instruction]siteInfo{}
+		type cs struct {
+			in   ssa.Instruction
+			name string
+			idx  int
+		}
+		var all []cs
+		n := 0
+		for _, b := range fn.Blocks {
+			for _, in := range b.Instrs {
+				ci, ok := in.(ssa.CallInstruction)
+				if !ok {
+					continue
+				}
+				n++
+				c := ci.Common()
+				name := ""
+				switch {
+				case c.IsInvoke():
+					name = "(" + typeKey(c.Value.Type()) + ")." + c.Method.Name()
+				case c.StaticCallee() != nil:
+					name = fullName(c.StaticCallee())
+				}
+				all = append(all, cs{in, name, n})
+			}
+		}
+		sort.SliceStable(all, func(i, j int) bool {
+			pi, pj := all[i].in.Pos(), all[j].in.Pos()
+			if pi != pj && pi.IsValid() && pj.IsValid() {
+				return pi < pj
+			}
+			return all[i].idx < all[j].idx
+		})
+		cnt := map[string]int{}
+		for _, c := range all {
+			if c.name == "" {
+				continue
+			}
+			cnt[c.name]++
+			m[c.in] = siteInfo{c.name, cnt[c.name]}
+		}
+		E.siteOrds[fn] = m
+	}
+	si, ok := m[site]
+	if !ok || si.name != callee {
+		return 0
+	}
+	return si.ord
+}
+
+type siteInfo struct {
+	name string
+	ord  int
 }
